@@ -95,7 +95,11 @@ def handleOpt (args : List String) : String :=
           match extras.find? (fun e => e.1 == name) with
           | some (_, a, p) => some (a, p)
           | none => statics name
-        let cfg := optCfgOf variant
+        -- host methods declared impure travel as extra entries `.name:arity:0`; the shipped method table is regenerated
+        let cfg : Cfg := { optCfgOf variant with
+          methNamePure := fun name =>
+            !(extras.any (fun e => e.1 == "." ++ name && !e.2.2)) &&
+            P2.Generated.valueMethods.all (fun e => e.2.1 != name || e.2.2.2) }
         match optimize S methods optTables cfg argNames ast with
         | .ok a' =>
           let before := " ".intercalate (dumpAST S cfg true ast)
